@@ -32,12 +32,12 @@ inductive Tm where
   | seq (a b : Tm)
   | bind (e : Tm) (body : Tm)      -- evaluate `e`, bind it, continue with `body`
   | empty
-  -- operations that are not escaping-neutral (C15 only)
+  -- operations on mixes of Markup and plain values (C15; of these only `join` is escaping-neutral and belongs to C16's fragment)
   | esc (e : Tm)                   -- `e|e`, `e|escape`
   | force (e : Tm)                 -- `e|forceescape`
   | add (a b : Tm)                 -- `a + b`
   | mod (f a : Tm)                 -- `f % a`, `f|format(a)`
-  | join (d a b : Tm)              -- `[a, b]|join(d)`
+  | join (d a b : Tm)              -- `[a, b]|join(d)` (sync_do_join: all three paths — plain, escaped delimiter, Markup delimiter)
   | replace (s old new : Tm)       -- `s|replace(old, new)`
   | indent (s w : Tm)              -- `s|indent(w, first=true)`
   | truncate (s e : Tm) (n : Nat)  -- `s|truncate(n, true, e, 0)`
@@ -49,6 +49,7 @@ def Tm.neutral : Tm → Bool
   | .lit _ | .var _ | .text _ | .empty => true
   | .cat a b | .seq a b | .bind a b => a.neutral && b.neutral
   | .blk a | .emit a => a.neutral
+  | .join d a b => d.neutral && a.neutral && b.neutral     -- joining is escaping-neutral, whatever is Markup among delimiter and items
   | _ => false
 
 /-- `runtime.markup_join((a, b))` (autoescape) -/
@@ -116,6 +117,7 @@ def valOff : Tm → List (List Char) → List Char
   | .seq a b, env => outOff a env ++ outOff b env
   | .bind e n, env => outOff n (valOff e env :: env)
   | .empty, _ => []
+  | .join d a b, env => valOff a env ++ valOff d env ++ valOff b env      -- `str(d).join(map(str, value))`
   | _, _ => []
 def outOff : Tm → List (List Char) → List Char
   | .text t, _ => t
@@ -127,6 +129,7 @@ def outOff : Tm → List (List Char) → List Char
   | .lit s, _ => s
   | .var i, env => env.getD i []
   | .cat a b, env => valOff a env ++ valOff b env
+  | .join d a b, env => valOff a env ++ valOff d env ++ valOff b env
   | _, _ => []
 end
 
